@@ -790,6 +790,13 @@ class EqWorld(BaseWorld):
             ev['hf'] = r6(r.uniform(0., 1.))
         elif pair in ('TH', 'TS'):
             ev['T'] = self.draw_T(r)
+            if r.random() < 0.3:
+                try:
+                    Tc = take_snap(self.streams[name]).T
+                    if self.win['T'][0] <= Tc <= self.win['T'][1]:
+                        ev['T'] = Tc                  # re-flash at the stream's current temperature
+                except Exception:
+                    pass
             if self.prop == 'C04' or r.random() < 0.9:
                 ev['hf'] = r6(r.uniform(0.03, 0.97))
             else:
@@ -803,10 +810,18 @@ class EqWorld(BaseWorld):
         """Binary x / y specification aimed at a feasible lever rule (Raoult estimate)."""
         pk = self.pk(name)
         out = {}
+        cur = None
+        try:
+            cur = take_snap(self.streams[name])
+        except Exception:
+            pass
+        here = cur is not None and r.random() < 0.6      # "flash at the stream's current T (P)"
         if pair[0] == 'T':
-            out['T'] = self.draw_T(r)
+            lo, hi = self.win['T']
+            out['T'] = cur.T if (here and lo <= cur.T <= hi) else self.draw_T(r)
         else:
-            out['P'] = self.draw_P(r)
+            lo, hi = self.win['P']
+            out['P'] = cur.P if (here and lo <= cur.P <= hi) else self.draw_P(r)
         x0 = r.uniform(0.05, 0.95)
         try:
             c = Comp(pk, take_snap(self.streams[name]))
@@ -1877,6 +1892,15 @@ def _single_partitioning(world, ev):
     return world.n_eff(ev['stream']) == 1
 
 
+def _stored(world, ev, key):
+    """the stream already holds the specified T (P): a specification that is not stored cannot show"""
+    try:
+        s = world.streams[ev['stream']]
+        return float(s.T if key == 'T' else s.P) == ev[key]
+    except Exception:
+        return False
+
+
 def _single_with_heavy(world, ev):
     try:
         c = Comp(world.pk(ev['stream']), take_snap(world.streams[ev['stream']]))
@@ -1896,13 +1920,14 @@ REGIONS = {
                                              and _single_partitioning(w, ev)),
     # VLE._set_TH_chemical / _set_TS_chemical never store the specified T (vle.py:513, :589)
     'C04-THS-single-volatile': lambda w, ev: (ev.get('op') == 'vle' and ev.get('spec') in ('TH', 'TS')
-                                              and _single_partitioning(w, ev)),
+                                              and _single_partitioning(w, ev) and not _stored(w, ev, 'T')),
     # VLE._set_PS_chemical interpolates S linearly in the vapour fraction although the liquid row also
     # holds an inert locked chemical (ideal-mixing term is not linear): S is reproduced only to ~1e-3 kJ/kg/K
     'C04-PS-single-volatile-inert-liquid': lambda w, ev: (ev.get('op') == 'vle' and ev.get('spec') == 'PS'
                                                           and _single_with_heavy(w, ev)),
     # VLE.set_Tx / set_Px / set_Ty / set_Py never store the specified T (P) (vle.py:622-644)
-    'C04-xy-spec-not-stored': lambda w, ev: (ev.get('op') == 'vle' and ev.get('spec') in ('Tx', 'Px', 'Ty', 'Py')),
+    'C04-xy-spec-not-stored': lambda w, ev: (ev.get('op') == 'vle' and ev.get('spec') in ('Tx', 'Px', 'Ty', 'Py')
+                                             and not _stored(w, ev, ev['spec'][0])),
 }
 
 
